@@ -1641,7 +1641,7 @@ func (f *g2lFn) walkCall(b *binds, e *ast.CallExpr, treeFn string) string {
 	f.nloop++
 	key := types.NewVar(lit.Pos(), f.p.pkg, fmt.Sprintf("walkFn%d", f.nloop), types.Typ[types.Invalid])
 	cl := f.defineClosureAs(fmt.Sprintf("walkFn%d", f.nloop), key, lit)
-	f.useAbs(treeFn)
+	f.useAbs(strings.TrimSuffix(treeFn, "?"))
 	root := f.expr(b, e.Args[0])
 	stPat, stVal := "_", "()"
 	if len(cl.modified) > 0 {
@@ -1655,7 +1655,13 @@ func (f *g2lFn) walkCall(b *binds, e *ast.CallExpr, treeFn string) string {
 	} else {
 		fn = fmt.Sprintf("(fun wp wi we _ => do let r ← %s; pure (r, ()))", call)
 	}
-	t := f.bindM(b, fmt.Sprintf("walkTree %s fuel %s (%s %s) %s", fn, root, treeFn, root, stVal))
+	walker := "walkTree"
+	if strings.HasSuffix(treeFn, "?") {
+		// the root may be missing: the abstract parameter yields an Option
+		treeFn = strings.TrimSuffix(treeFn, "?")
+		walker = "walkTreeOpt"
+	}
+	t := f.bindM(b, fmt.Sprintf("%s %s fuel %s (%s %s) %s", walker, fn, root, treeFn, root, stVal))
 	r := f.fresh("wk")
 	b.add(fmt.Sprintf("let (%s, %s) := %s", r, stPat, t))
 	for _, m := range cl.modified {
